@@ -353,4 +353,254 @@ theorem inRange_of_inBox (ghost : Bool) (axes : List (List Nat)) (idx g : List N
         have := offset_add_size_le_sum sizes i
         omega
 
+/-! ### `List.set` on multi-indices -/
+
+theorem set_getD_self (l : List Nat) (i d : Nat) : l.set i (l.getD i d) = l := by
+  induction l generalizing i with
+  | nil => simp
+  | cons x xs ih =>
+    cases i with
+    | zero => simp
+    | succ i => simp only [List.getD_cons_succ, List.set_cons_succ, ih i]
+
+theorem getD_set_self (l : List Nat) (i v d : Nat) (h : i < l.length) : (l.set i v).getD i d = v := by
+  induction l generalizing i with
+  | nil => simp at h
+  | cons x xs ih =>
+    cases i with
+    | zero => simp
+    | succ i =>
+      simp only [List.length_cons, Nat.add_lt_add_iff_right] at h
+      simp only [List.set_cons_succ, List.getD_cons_succ]; exact ih i h
+
+theorem inRange_set {idx shape : List Nat} (h : InRange idx shape) (axis v : Nat) (hv : v < shape.getD axis 0) :
+    InRange (idx.set axis v) shape := by
+  induction idx generalizing shape axis with
+  | nil => cases shape <;> simp_all
+  | cons i is ih =>
+    cases shape with
+    | nil => simp at h
+    | cons n ns =>
+      simp only [inRange_def, inShape_cons_cons, Bool.and_eq_true, decide_eq_true_eq] at h
+      cases axis with
+      | zero => simp at hv; simp [hv, h.2]
+      | succ axis =>
+        simp at hv
+        have := ih (shape := ns) (by simpa using h.2) axis hv
+        simp only [inRange_def] at this
+        simp [h.1, this]
+
+theorem inRange_getD {idx shape : List Nat} (h : InRange idx shape) (axis : Nat) (hax : axis < shape.length) :
+    idx.getD axis 0 < shape.getD axis 0 := by
+  induction idx generalizing shape axis with
+  | nil => cases shape <;> simp_all
+  | cons i is ih =>
+    cases shape with
+    | nil => simp at h
+    | cons n ns =>
+      simp only [inRange_def, inShape_cons_cons, Bool.and_eq_true, decide_eq_true_eq] at h
+      cases axis with
+      | zero => simpa using h.1
+      | succ axis =>
+        simp at hax
+        simpa using ih (shape := ns) (by simpa using h.2) axis hax
+
+/-! ### sub-array shapes and stencil reads -/
+
+theorem sliceShape_boxOf (ghost : Bool) (axes : List (List Nat)) (idx : List Nat)
+    (h : InRange idx (axes.map List.length)) :
+    sliceShape ((axes.map List.sum).map (· + gadd ghost)) (boxOf ghost axes idx)
+      = (subShapeOf axes idx).map (· + gadd ghost) := by
+  induction axes generalizing idx with
+  | nil => cases idx <;> simp [sliceShape]
+  | cons sizes ax ih =>
+    cases idx with
+    | nil => simp at h
+    | cons i is =>
+      simp only [List.map_cons, inRange_def, inShape_cons_cons, Bool.and_eq_true, decide_eq_true_eq] at h
+      have := ih is (by simpa using h.2)
+      simp only [List.map_cons, boxOf_cons_cons, sliceShape, subShapeOf_cons_cons, this, sliceAt_eq ghost sizes i h.1]
+      congr 1
+      have := offset_add_size_le_sum sizes i
+      unfold sliceLen
+      simp only
+      omega
+
+/-- shape of the extracted sub-array: the sub-grid's shape (plus the ghost layers) -/
+theorem Mesh.extract_shape {α : Type} (m : Mesh) (ghost : Bool) (data : Arr α) (hd : data.shape = m.arrShape ghost)
+    {id : Nat} (hid : id < m.len) :
+    (m.extract ghost data id).shape = (m.subShape id).map (· + gadd ghost) := by
+  unfold Mesh.extract Arr.slice Mesh.box Mesh.subShape
+  simp only [hd, Mesh.arrShape, Mesh.shape]
+  exact sliceShape_boxOf ghost m.axes _ (unravel_inRange m.dec id hid)
+
+theorem inRange_vsub_of_inBox (axes : List (List Nat)) (idx g : List Nat)
+    (h : InRange idx (axes.map List.length)) (hb : inBox (boxOf false axes idx) g = true) :
+    InRange (vsub g (starts (boxOf false axes idx))) (subShapeOf axes idx) := by
+  induction axes generalizing idx g with
+  | nil =>
+    cases idx with
+    | cons _ _ => simp at h
+    | nil => cases g <;> simp_all [starts]
+  | cons sizes ax ih =>
+    cases idx with
+    | nil => simp at h
+    | cons i is =>
+      simp only [List.map_cons, inRange_def, inShape_cons_cons, Bool.and_eq_true, decide_eq_true_eq] at h
+      cases g with
+      | nil => simp at hb
+      | cons g0 gs =>
+        simp only [boxOf_cons_cons, sliceAt_eq false sizes i h.1, inBox_cons_cons, Bool.and_eq_true,
+          decide_eq_true_eq, gadd, Bool.false_eq_true, if_false, Nat.add_zero] at hb
+        have := ih is gs (by simpa using h.2) hb.2
+        simp only [inRange_def, starts] at this
+        simp only [boxOf_cons_cons, sliceAt_eq false sizes i h.1, starts, List.map_cons, vsub_cons,
+          subShapeOf_cons_cons, inRange_def, inShape_cons_cons, this, Bool.and_true, decide_eq_true_eq]
+        omega
+
+/-- a cell of a sub-grid plus a stencil offset `0..2` stays inside the padded sub-array -/
+theorem inRange_vadd_offs (shape p d : List Nat) (hp : InRange p shape) (hd : InRange d (shape.map fun _ => 3)) :
+    InRange (vadd p d) (shape.map (· + 2)) := by
+  induction shape generalizing p d with
+  | nil =>
+    cases p with
+    | nil => simp
+    | cons _ _ => simp at hp
+  | cons n ns ih =>
+    cases p with
+    | nil => simp at hp
+    | cons p0 ps =>
+      cases d with
+      | nil => simp at hd
+      | cons d0 ds =>
+        simp only [List.map_cons, inRange_def, inShape_cons_cons, Bool.and_eq_true, decide_eq_true_eq] at hp hd
+        have := ih ps ds (by simpa using hp.2) (by simpa using hd.2)
+        simp only [inRange_def] at this
+        simp only [vadd_cons, List.map_cons, inRange_def, inShape_cons_cons, this, Bool.and_true, decide_eq_true_eq]
+        omega
+
+theorem readAll_congr {α : Type} (f g : List Nat → Option α) (reads : List (List Nat))
+    (h : ∀ d ∈ reads, f d = g d) : readAll f reads = readAll g reads := by
+  induction reads with
+  | nil => rfl
+  | cons d ds ih =>
+    unfold readAll
+    rw [h d (List.mem_cons_self ..), ih (fun e he => h e (List.mem_cons_of_mem _ he))]
+
+theorem readAll_isSome {α : Type} (f : List Nat → Option α) (reads : List (List Nat))
+    (h : ∀ d ∈ reads, (f d).isSome = true) : (readAll f reads).isSome = true := by
+  induction reads with
+  | nil => rfl
+  | cons d ds ih =>
+    unfold readAll
+    have h1 := h d (List.mem_cons_self ..)
+    have h2 := ih (fun e he => h e (List.mem_cons_of_mem _ he))
+    cases hf : f d with
+    | none => rw [hf] at h1; simp at h1
+    | some x =>
+      cases hr : readAll f ds with
+      | none => rw [hr] at h2; simp at h2
+      | some xs => simp
+
+/-! ### neighbours -/
+
+/-- the decision of `get_neighbor` along one axis: the neighbour's index along the axis -/
+def nbStep (size k : Nat) (per upper : Bool) : Option Nat :=
+  if size = 1 then none
+  else if upper then
+    if k < size - 1 then some (k + 1) else if per then some 0 else none
+  else
+    if k > 0 then some (k - 1) else if per then some (size - 1) else none
+
+theorem neighbor_eq_nbStep (m : Mesh) (axis : Nat) (upper : Bool) (id : Nat) :
+    neighbor m axis upper id
+      = (nbStep (m.dec.getD axis 0) ((m.id2idx id).getD axis 0) (m.periodic.getD axis false) upper).map
+          (fun k' => m.idx2id ((m.id2idx id).set axis k')) := by
+  unfold neighbor nbStep
+  cases upper <;> simp only [Bool.false_eq_true, if_false, if_true] <;> split_ifs <;> rfl
+
+theorem nbStep_lt {size k k' : Nat} {per upper : Bool} (hk : k < size) (h : nbStep size k per upper = some k') :
+    k' < size := by
+  unfold nbStep at h
+  split_ifs at h <;> simp at h <;> omega
+
+theorem nbStep_symm {size k k' : Nat} {per : Bool} (hk : k < size) (hk' : k' < size) :
+    nbStep size k per true = some k' ↔ nbStep size k' per false = some k := by
+  unfold nbStep
+  simp only [if_true, Bool.false_eq_true, if_false]
+  split_ifs <;> simp <;> omega
+
+/-- the neighbour index wraps around: `k+1 mod size` upwards, `k-1 mod size` downwards -/
+theorem nbStep_mod {size k k' : Nat} {per upper : Bool} (hk : k < size) (h : nbStep size k per upper = some k') :
+    k' = if upper then (k + 1) % size else (k + size - 1) % size := by
+  unfold nbStep at h
+  cases upper
+  · simp only [Bool.false_eq_true, if_false] at h ⊢
+    split_ifs at h with h1 h2 h3
+    · simp only [Option.some.injEq] at h
+      have e : k + size - 1 = (k - 1) + size := by omega
+      rw [e, Nat.add_mod_right, Nat.mod_eq_of_lt (by omega)]; omega
+    · simp only [Option.some.injEq] at h
+      have e : k + size - 1 = size - 1 := by omega
+      rw [e, Nat.mod_eq_of_lt (by omega)]; omega
+  · simp only [if_true] at h ⊢
+    split_ifs at h with h1 h2 h3
+    · simp only [Option.some.injEq] at h
+      rw [Nat.mod_eq_of_lt (by omega)]; omega
+    · simp only [Option.some.injEq] at h
+      have e : k + 1 = size := by omega
+      rw [e, Nat.mod_self]; omega
+
+theorem nbStep_none_iff (size k : Nat) (per upper : Bool) :
+    nbStep size k per upper = none ↔
+      size = 1 ∨ (per = false ∧ if upper then ¬ k < size - 1 else k = 0) := by
+  unfold nbStep
+  cases upper <;> cases per <;> simp only [Bool.false_eq_true, if_false, if_true] <;> split_ifs <;> simp <;> omega
+
+theorem ravel_eq_iff (shape : List Nat) (x : List Nat) (b : Nat) (hx : InRange x shape) (hb : b < shape.prod) :
+    ravel shape x = b ↔ x = unravel shape b := by
+  constructor
+  · intro h; rw [← h, unravel_ravel hx]
+  · intro h; rw [h, ravel_unravel shape b hb]
+
+theorem neighbor_some_iff (m : Mesh) (axis : Nat) (upper : Bool) (a b : Nat) (ha : a < m.len) (hb : b < m.len)
+    (hax : axis < m.axes.length) :
+    neighbor m axis upper a = some b ↔
+      ∃ k', nbStep (m.dec.getD axis 0) ((m.id2idx a).getD axis 0) (m.periodic.getD axis false) upper = some k' ∧
+        m.id2idx b = (m.id2idx a).set axis k' := by
+  have hia := unravel_inRange m.dec a ha
+  have hka := inRange_getD hia axis (by rw [Mesh.dec_length]; exact hax)
+  rw [neighbor_eq_nbStep, Option.map_eq_some_iff]
+  constructor
+  · rintro ⟨k', h1, h2⟩
+    refine ⟨k', h1, ?_⟩
+    have hv : InRange ((m.id2idx a).set axis k') m.dec := inRange_set hia axis _ (nbStep_lt hka h1)
+    exact ((ravel_eq_iff m.dec _ b hv hb).1 h2).symm
+  · rintro ⟨k', h1, h2⟩
+    refine ⟨k', h1, ?_⟩
+    have hv : InRange ((m.id2idx a).set axis k') m.dec := inRange_set hia axis _ (nbStep_lt hka h1)
+    exact (ravel_eq_iff m.dec _ b hv hb).2 h2.symm
+
+theorem nbStep_seam {size k k' : Nat} {per upper : Bool} (h : nbStep size k per upper = some k')
+    (hend : if upper then ¬ k < size - 1 else k = 0) : per = true := by
+  unfold nbStep at h
+  cases upper <;> simp only [Bool.false_eq_true, if_false, if_true] at h hend <;> split_ifs at h <;> simp_all <;> omega
+
+theorem boxOf_getD (ghost : Bool) (axes : List (List Nat)) (idx : List Nat) (axis : Nat)
+    (h : InRange idx (axes.map List.length)) (hax : axis < axes.length) :
+    (boxOf ghost axes idx).getD axis (0, 0) = sliceAt ghost (axes.getD axis []) (idx.getD axis 0) := by
+  induction axes generalizing idx axis with
+  | nil => simp at hax
+  | cons sizes ax ih =>
+    cases idx with
+    | nil => simp at h
+    | cons i is =>
+      simp only [List.map_cons, inRange_def, inShape_cons_cons, Bool.and_eq_true, decide_eq_true_eq] at h
+      cases axis with
+      | zero => simp
+      | succ axis =>
+        simp only [List.length_cons, Nat.add_lt_add_iff_right] at hax
+        simp only [boxOf_cons_cons, List.getD_cons_succ]
+        exact ih is axis (by simpa using h.2) hax
+
 end PdeVerif.Mesh
